@@ -159,7 +159,7 @@ func runC01(c *Ctx) {
 				}
 			}
 		}
-		if s := c.one(f, false, "sort.Slice"); s != nil {
+		if s := c.one(f, false, "sort.Slice", "sort.SliceStable", "sort.Sort", "sort.Stable"); s != nil {
 			for _, r := range Returns(f) {
 				c.Check(mustPassBefore(r, s) && sharesRoots(sliceOfIface(arg(s, 0)), r.Results[0]), fk(f, "sorted-output"), r, "the returned list is the sorted one")
 			}
@@ -167,6 +167,11 @@ func runC01(c *Ctx) {
 	}
 
 	// ---- R6 ------------------------------------------------------------------------------------
+	c.Rule("R8", "accessor agreement for the replication state (consumer pending changes, cross-chain validators, provider channel; provider pending packets and consumer validator set)", 10)
+	checkAccessorAgreement(c, "ck", "PendingChangesKey", "CrossChainValidatorKey", "ProviderChannelIDKey")
+	checkAccessorAgreement(c, "pk", "PendingVSCsKey", "ConsumerValidatorKey")
+	checkSetterValues(c, "ck", []string{"PendingChanges", "CCValidator", "ProviderChannel"})
+
 	c.Rule("R6", "apply once: consumer EndBlock applies GetPendingChanges().ValidatorUpdates, returns exactly the apply's result, and DeletePendingChanges lies on every path from the apply to the return; reward distribution and packet sending precede it", 5)
 	if f := c.Fn("consumer.AppModule.EndBlock"); f != nil {
 		ap := c.one(f, false, "ck.Keeper.ApplyCCValidatorChanges")
